@@ -82,6 +82,26 @@ class PROP(Prop):
             if mb.spec_rsp_size(rsp) <= 253:
                 cs.append(Case("SRV tcp d%s - - r=%s" % (mb.tcp_frame(3, 4, b"\x11").hex(), mb.show_rsp(rsp)), {"k": "emit_rsp", "nparts": 1}))
             cs.append(Case("SRV tcp d%s - - x=%d" % (mb.tcp_frame(3, 4, b"\x11").hex(), rng.randrange(256)), {"k": "emit_rsp", "nparts": 1}))
+        # emitted frames when an earlier call (write error, zero write, abandoned mid-write) left bytes in the write buffer
+        for _ in range(200 if tier == "quick" else 2000):
+            slave = rng.randrange(256)
+            ops = []
+            for i in range(rng.randrange(2, 5)):
+                req = mb.rnd_req(rng, rng.choice(["RC", "RHR", "WSR", "WSC", "MWR", "WMR", "RSI", "WMC"]))
+                if mb.spec_req_size(req) > 60:
+                    req = ("RHR", 1, 1)
+                flen = 7 + mb.spec_req_size(req)
+                k = rng.randrange(0, flen)
+                mode = rng.choice(["ok", "ok", "werr", "abandon", "zero"]) if i < 3 else "ok"
+                if mode == "ok":
+                    ops.append(cligen.call_op(req, R="e:Other"))
+                elif mode == "werr":
+                    ops.append(cligen.call_op(req, W=("a%d," % k if k else "") + "e:Other"))
+                elif mode == "zero":
+                    ops.append(cligen.call_op(req, W=("a%d," % k if k else "") + "z"))
+                else:
+                    ops.append(cligen.call_op(req, W=("a%d," % k if k else "") + "p", drop="0"))
+            cs.append(Case(cligen.cli_line("tcp", slave, ops), {"k": "emit_hist", "nparts": 2}))
         return cs
 
     @staticmethod
@@ -140,6 +160,22 @@ class PROP(Prop):
         if k == "cli_pid":
             res, _ = cligen.res_and_w(r)
             return None if res == "T:InvalidData" else "non-zero protocol identifier in a reply: %s" % res[:60]
+        if k == "emit_hist":
+            stream = b"".join(cligen.res_and_w(x)[1] for x in cligen.split_results(r))
+            pos = 0
+            while pos + 7 <= len(stream):
+                ln = stream[pos + 4] << 8 | stream[pos + 5]
+                if stream[pos + 2] or stream[pos + 3]:
+                    return "transmitted stream: protocol identifier %02x%02x at offset %d" % (stream[pos + 2], stream[pos + 3], pos)
+                if ln < 2 or ln > 254:
+                    return "transmitted stream: length field %d at offset %d is not a PDU length + 1" % (ln, pos)
+                if pos + 6 + ln > len(stream):
+                    break
+                cl = mb.classify_req(stream[pos + 7:pos + 6 + ln])
+                if cl[0] != "accept":
+                    return "transmitted stream: frame at offset %d does not carry a well-formed request PDU of the announced length" % pos
+                pos += 6 + ln
+            return None
         if k == "emit_req":
             res, w = cligen.res_and_w(r)
             return self.check_emitted(w.hex())
